@@ -73,6 +73,16 @@ Theorem C08_relevant : forall cs goals cs' ev q,
 Proof. exact (prob_gen_restrict gatom gatom_eqb gatom_eqb_spec). Qed.
 Print Assumptions C08_relevant.
 
+(* The same without a syntactic condition on negation: it suffices that neither the program nor the relevant
+   ground program is rejected as not two-valued (e.g. a negative loop outside the cone that happens to be
+   two-valued in every world is harmless). *)
+Theorem C08_relevant_two_valued : forall cs goals cs' ev q,
+  restrict gatom gatom_eqb cs goals = Some cs' -> In q goals -> (forall e, In e ev -> In (fst e) goals) ->
+  prob_gen gatom gatom_eqb cs ev q <> NotTwoValued -> prob_gen gatom gatom_eqb cs' ev q <> NotTwoValued ->
+  prob_gen gatom gatom_eqb cs' ev q = prob_gen gatom gatom_eqb cs ev q.
+Proof. exact (prob_gen_restrict_tv gatom gatom_eqb gatom_eqb_spec). Qed.
+Print Assumptions C08_relevant_two_valued.
+
 (* Without any hypothesis on negation: the unnormalised masses (P(e), P(q /\ e), any check that only reads
    atoms of the cone C) and the mass of the worlds in which an atom of the cone is undefined (the sum Sem.classify
    uses) are those of the restricted program.  Choices of AD instances outside the cone marginalise to 1. *)
